@@ -46,6 +46,8 @@ import (
 	"github.com/drand/drand/v2/internal/net"
 	"github.com/drand/drand/v2/internal/util"
 	pdkg "github.com/drand/drand/v2/protobuf/dkg"
+	kdkg "github.com/drand/kyber/share/dkg"
+	"github.com/drand/kyber/sign/schnorr"
 	"github.com/drand/kyber/util/random"
 )
 
@@ -98,6 +100,7 @@ type vfdNet struct {
 	nHeld       atomic.Int64
 	dropFrom    map[string]string // sender address -> bundle kind that is lost on its way out ("" = none)
 	errs        *vfdErrRing
+	faulty      *vfdFaulty // one participant whose OWN deal bundle carries undecryptable shares for K holders
 	dropLink    map[string]string // "from>to" -> bundle kind lost on that one directed link (echoes by third nodes still arrive)
 	lagStop     chan struct{}
 	maxLagNs    atomic.Int64 // worst lateness of a 5 ms timer since the last reset: is this box keeping time?
@@ -118,6 +121,7 @@ type vfdNet struct {
 	nPanics    atomic.Int64
 	nStuck     atomic.Int64
 	nGarbled   atomic.Int64
+	nDoctored  atomic.Int64
 	tmu        sync.Mutex
 	tm         vfdTiming
 	// onPanic is told about a panic of the real code inside a delivery (what, destination, panic value, the
@@ -385,6 +389,71 @@ func (n *vfdNet) setSlow(s *vfdSlow) {
 	n.mu.Unlock()
 }
 
+// vfdFaulty: a dealer that is faulty rather than slow: the encrypted shares its deal bundle carries for K of the
+// holders cannot be decrypted (the bundle is otherwise well formed and correctly signed with the dealer's own key,
+// which the harness holds). Those holders complain, the dealer has to justify, and everybody must still end up with
+// the same group. K stays below the threshold.
+type vfdFaulty struct {
+	Addr     string
+	K        int
+	origSig  []byte        // signature of the dealer's own bundle as it left the real code
+	doctored *pdkg.DKGPacket
+	done     bool
+}
+
+func (n *vfdNet) setFaulty(f *vfdFaulty) {
+	n.mu.Lock()
+	n.faulty = f
+	n.mu.Unlock()
+}
+
+// doctor returns the packet to put on the wire for `in` sent by `from`.
+func (n *vfdNet) doctor(from string, in *pdkg.DKGPacket) *pdkg.DKGPacket {
+	n.mu.Lock()
+	defer n.mu.Unlock()
+	f := n.faulty
+	d := in.GetDkg().GetDeal()
+	if f == nil || d == nil || from != f.Addr {
+		return in
+	}
+	if f.doctored != nil {
+		if bytes.Equal(d.GetSignature(), f.origSig) {
+			return f.doctored
+		}
+		return in
+	}
+	if f.done {
+		return in
+	}
+	f.done = true // the first deal bundle a node sends in an epoch is its own
+	nd := n.nodes[from]
+	bundle, err := protoToDeal(d, n.sch)
+	if nd == nil || err != nil || len(bundle.Deals) < 2 {
+		return in
+	}
+	k := f.K
+	if k > len(bundle.Deals)-1 {
+		k = len(bundle.Deals) - 1
+	}
+	for _, i := range n.rng.Perm(len(bundle.Deals))[:k] {
+		garbage := n.rng.Bytes(len(bundle.Deals[i].EncryptedShare))
+		bundle.Deals[i].EncryptedShare = garbage
+	}
+	suite, ok := n.sch.KeyGroup.(kdkg.Suite)
+	if !ok {
+		return in
+	}
+	sig, err := schnorr.NewScheme(suite).Sign(nd.kp.Key, bundle.Hash())
+	if err != nil {
+		return in
+	}
+	bundle.Signature = sig
+	f.origSig = append([]byte(nil), d.GetSignature()...)
+	f.doctored = &pdkg.DKGPacket{Dkg: dealToProto(bundle, in.GetDkg().GetMetadata().GetBeaconID())}
+	n.nDoctored.Add(1)
+	return f.doctored
+}
+
 func (n *vfdNet) setDropLink(m map[string]string) {
 	n.mu.Lock()
 	n.dropLink = m
@@ -434,6 +503,7 @@ func (n *vfdNet) addCounters(run *vfRun) {
 	run.Count("dkg_bundles_routed", n.nBundles.Load())
 	run.Count("dkg_bundles_answered_error", n.nBundleErr.Load())
 	run.Count("packets_duplicated", n.nDup.Load())
+	run.Count("deal_bundles_with_undecryptable_shares", n.nDoctored.Load())
 	run.Count("bundles_preceded_by_a_copy_with_a_garbled_signature", n.nGarbled.Load())
 	run.Count("packets_delayed", n.nDelayed.Load())
 	run.Count("bundles_async_reordered", n.nAsync.Load())
@@ -753,6 +823,7 @@ func vfdBundleKind(in *pdkg.DKGPacket) string {
 
 func (c *vfdClient) BroadcastDKG(_ context.Context, p net.Peer, in *pdkg.DKGPacket, _ ...grpc.CallOption) (*pdkg.EmptyDKGResponse, error) {
 	n := c.net
+	in = n.doctor(c.from, in)
 	sent := time.Now()
 	dst := p.Address()
 	kind := vfdBundleKind(in)
